@@ -101,8 +101,13 @@ void Ctx::c02() {
                 if (o.init_seq > s.suffix_end_seq) continue;
                 const Done* d = done(o);
                 if (!d || d->seq > s.suffix_end_seq)
+                {
                     fail("C02", "not_completed_after_heal", opstr(o) + " still outstanding " + std::to_string((s.suffix_end_t - s.heal_t) / SEC) +
                          " s after the last fault (heal at t=" + std::to_string(s.heal_t / 1000000) + " ms)");
+                    // C19: malformed traffic is followed by normal recovery
+                    if (hostile_run) fail("C19", "no_recovery_after_hostile_traffic", opstr(o) + " still outstanding " + std::to_string((s.suffix_end_t - s.heal_t) / SEC) +
+                         " s after the broker stopped sending malformed packets");
+                }
             }
         }
         // (c) same packet identifier on every transmission (PUBLISH: see also C03)
@@ -276,6 +281,7 @@ void Ctx::c14() {
             auto& m = sub ? sub_receipts : unsub_receipts;
             auto it = m.find(o.id);
             bool ok = false; std::string why = "the broker never received the request";
+            if (relaxed_witness() && it == m.end()) continue;   // identifier and write time unknown: cannot be judged under repeated acknowledgements (as in C01)
             if (it != m.end()) {
                 why = "";
                 for (int ri : it->second) {
@@ -338,6 +344,31 @@ void Ctx::c03() {
                 // bytes lost in flight on the same connection never happen (TCP), so DUP on the first receipt needs an earlier connection
                 if (!earlier_conn_possible)
                     fail("C03", "first_transmission_dup", opstr(o) + " first transmission carries DUP=1 (conn " + std::to_string(first.conn) + ")");
+            }
+            // (1b) QoS 2: no PUBLISH after a successful PUBREC was processed. The client read the PUBREC (a later
+            // read on that connection proves the receive buffer had been parsed up to it: assemble_op only reads
+            // when no complete packet is buffered), the write that carried the PUBLISH was reported successful
+            // and the sender went on to its next write on that connection (so its completion handler ran and the
+            // operation registered for - or picked up - the PUBREC). From then on only PUBREL may be (re)sent.
+            if (o.qos == 2 && !o.caller_cancelled) {
+                for (auto& sp : s.broker.sent) {
+                    if (sp.hostile || sp.pkt.type != PUBREC || sp.pkt.pid != pid || sp.pkt.rc >= 0x80 || !sp.delivered_seq) continue;
+                    if (sp.reply_to < 0 || std::find(rs.begin(), rs.end(), sp.reply_to) == rs.end()) continue;
+                    auto& e = s.broker.recv[sp.reply_to];
+                    if (!e.group || e.group != e.first_group) continue;
+                    auto& g = s.net.groups[e.group - 1];
+                    if (!g.done || g.result) continue;
+                    uint64_t t_read = 0, t_write = 0;
+                    for (auto& rr : s.net.reads) if (rr.conn == sp.conn && rr.seq_start > sp.delivered_seq) { t_read = rr.seq_start; break; }
+                    for (auto& g2 : s.net.groups) if (g2.conn == sp.conn && g2.seq_start > g.seq_done) { t_write = g2.seq_start; break; }
+                    if (!t_read || !t_write) continue;
+                    uint64_t T = std::max(t_read, t_write);
+                    if (multi_gen_active(o.init_seq, T)) continue;
+                    for (int ri : rs) if (s.broker.recv[ri].seq > T && s.broker.recv[ri].conn != sp.conn && s.broker.recv[ri].seq < end_seq)
+                        fail("C03", "publish_after_pubrec_processed", opstr(o) + " PUBLISH (pid " + std::to_string(pid) + ") transmitted again at seq " +
+                             std::to_string(s.broker.recv[ri].seq) + " (conn " + std::to_string(s.broker.recv[ri].conn) + ") although its successful PUBREC had been read on conn " +
+                             std::to_string(sp.conn) + " (seq " + std::to_string(sp.delivered_seq) + ") and the write of the PUBLISH was reported successful (seq " + std::to_string(g.seq_done) + ")");
+                }
             }
             // (4) DUP=1 when an earlier transmission was reported as written successfully
             for (size_t k = 1; k < rs.size(); ++k) {
@@ -546,6 +577,16 @@ std::map<std::string, uint64_t> run_features(Sim& s) {
     }
     f["pid_packets"] = pidp; f["pingreqs"] = pings; f["max_pub_ops_on_conn"] = max_ops_conn;
     f["pkts_to_client_with_props"] = with_props; f["hostile_delivered"] = hostile_deliv; f["subacks_delivered"] = subacks;
+    // reach probe: acknowledgements that reached the client before the write carrying their request was reported done
+    size_t early = 0;
+    for (auto& sp : s.broker.sent) {
+        if (!sp.delivered_seq || sp.reply_to < 0 || sp.reply_to >= (int)s.broker.recv.size()) continue;
+        auto& e = s.broker.recv[sp.reply_to];
+        if (!e.group) continue;
+        auto& g = s.net.groups[e.group - 1];
+        if (!g.done || g.seq_done > sp.delivered_seq) ++early;
+    }
+    f["acks_before_write_done"] = early;
     size_t ka = 0; for (auto& r : s.net.reads) if (r.end == sim::ReadRec::slot_cancel) ++ka;
     f["ka_judged"] = ka;
     // a reconnect that ended with Session Present 0 after a successful subscribe
